@@ -13,6 +13,8 @@
 //	    | (flt F F)                 Float[min,max]
 //	    | (bool n) | (bool t) | (bool f)      Boolean / Boolean[true] / Boolean[false]
 //	    | (tspan LO HI)             Timespan[min,max] in nanoseconds (int64; MinInt64/MaxInt64 = unbounded)
+//	    | (tstamp S1 N1 S2 N2)      Timestamp[min,max]; an instant is S seconds and N nanoseconds (0..999999999) after 0001-01-01T00:00:00Z
+//	                                (time.Time's internal epoch); default = (tstamp 0 0 9223372036854775807 999999999) = [MinTime, MaxTime]
 //	    | (strsz LO HI)             String[LO,HI]  (scStringType; `str` is the unconstrained stringType)
 //	    | (strval xHEX)             vcStringType (the type of a string literal; may be the empty string)
 //	    | (enum CI xHEX*)           CI ::= t|f ; values exactly as Strings() returns them (lower-cased when CI)
@@ -40,6 +42,7 @@
 //	    | (rxv xHEX)                Regexp value with that source
 //	    | (binv xHEX)               Binary
 //	    | (ts N)                    Timespan of N nanoseconds
+//	    | (tsv S N)                 Timestamp: the instant S seconds, N nanoseconds after 0001-01-01T00:00:00Z
 //	    | (a V*)                    Array
 //	    | (h (V V)*)                Hash, entries in order; keys pairwise different
 //	    | (sv V)                    Sensitive
